@@ -2,9 +2,15 @@
    the whole renderer model.  Partial correctness (only the Ok outcome), no axioms, no
    hypothesis on the options or the decorator.
 
-   See the summary at the end of the file for the main theorems. *)
+   MAIN THEOREMS (exact statements in the SUMMARY at the end of the file):
+     (1) links_threaded, links_threaded_no_table, link_targets_subseq, link_targets_no_table
+     (2) link_reference, link_reference_simple
+     (3) render_tree_footnotes, render_tree_footnote_entry, fmt_links_spec, render_tree_output
+   Findings (section 7): nested links get the number of the last link inside them (known);
+   table cells that get no width are dropped with their links AND their text (new). *)
 From H2T Require Import Base Tagged Wrap Sub Css Dom Render Api.
 From H2T Require Import Proofs.RenderWidth Proofs.Small.
+From H2T Require Proofs.TableProof.
 From Coq Require Import Lia ZifyN ZifyBool ZifyNat.
 
 Local Arguments N.add : simpl never.
@@ -288,37 +294,51 @@ Section LinkTargets.
     | _, _ => []
     end.
 
-  Definition on_ok {A} (r : res A) (k : A -> list text) : list text :=
-    match r with Ok a => k a | _ => [] end.
+  (* the value on a failed width computation is irrelevant for the theorems (they are about
+     the Ok outcome); it is chosen so that link_targets of a tree without tables is the list of
+     all its links whatever the widths are *)
+  Definition on_ok {A} (r : res A) (k : A -> list text) (dflt : list text) : list text :=
+    match r with Ok a => k a | _ => dflt end.
 
   Fixpoint link_targets (n : rnode) (w : N) {struct n} : list text :=
     let kids (cs : list rnode) (w' : N) : list text := flat_map (fun c => link_targets c w') cs in
+    let sub (cs : list rnode) (r : res N) : list text := on_ok r (kids cs) (kids cs w) in
     match rn_info n with
     | IText _ | IImg _ _ | IBreak | IFragStart _ => []
     | ILink href cs => href :: kids cs w
     | IContainer cs | IEm cs | IStrong cs | IStrikeout cs | ICode cs | IBlock cs | IListItem cs
     | IDiv cs | IDl cs | IDt cs | ISup cs => kids cs w
     | IHeader _ cs =>
-      on_ok (est_of d mw n) (fun sz =>
-      on_ok (width_minus (sub_new w o) (e_prefix sz) (e_min sz - e_prefix sz)) (kids cs))
+      on_ok (est_of d mw n)
+            (fun sz => sub cs (width_minus (sub_new w o) (e_prefix sz) (e_min sz - e_prefix sz)))
+            (kids cs w)
     | IBlockQuote cs =>
       let plen := swidth (d_quote_prefix d) in
-      on_ok (est_of d mw n) (fun sz =>
-      on_ok (do iw <- usub 21 (e_min sz) plen; width_minus (sub_new w o) plen iw) (kids cs))
+      on_ok (est_of d mw n)
+            (fun sz => sub cs (do iw <- usub 21 (e_min sz) plen; width_minus (sub_new w o) plen iw))
+            (kids cs w)
     | IUl cs =>
       let plen := swidth (d_ul_prefix d) in
-      on_ok (est_of d mw n) (fun sz =>
-      on_ok (do iw <- usub 22 (e_min sz) plen; width_minus (sub_new w o) plen iw) (kids cs))
+      on_ok (est_of d mw n)
+            (fun sz => sub cs (do iw <- usub 22 (e_min sz) plen; width_minus (sub_new w o) plen iw))
+            (kids cs w)
     | IOl start cs =>
       let sn := isat64 (start + Z.of_nat (length cs)) in
       let max_number := isat64 (sn - 1) in
       let pw := N.max (swidth (d_ol_prefix d start)) (swidth (d_ol_prefix d max_number)) in
-      on_ok (est_of d mw n) (fun sz =>
-      on_ok (do im <- usub 23 (e_min sz) (e_prefix sz); width_minus (sub_new w o) pw im) (kids cs))
+      on_ok (est_of d mw n)
+            (fun sz => sub cs (do im <- usub 23 (e_min sz) (e_prefix sz);
+                               width_minus (sub_new w o) pw im))
+            (kids cs w)
     | IDd cs =>
-      on_ok (est_of d mw n) (fun sz =>
-      on_ok (do im <- usub 24 (e_min sz) 2; width_minus (sub_new w o) 2 im) (kids cs))
+      on_ok (est_of d mw n)
+            (fun sz => sub cs (do im <- usub 24 (e_min sz) 2; width_minus (sub_new w o) 2 im))
+            (kids cs w)
     | ITable rows ncols =>
+      let all_cells (cells : list rcell) : list text :=
+          flat_map (fun c => match c with RCell _ content _ => kids content w end) cells in
+      let all_rows : list text :=
+          flat_map (fun r => match r with RRow rcells _ => all_cells rcells end) rows in
       on_ok (tbl_col_sizes rows ncols) (fun col_sizes =>
       on_ok (tbl_col_widths w col_sizes) (fun col_widths =>
         flat_map (fun r =>
@@ -334,7 +354,8 @@ Section LinkTargets.
                                 | _ :: cells', None :: wsl' => cells_loop cells' wsl'
                                 | _, _ => []
                                 end) rcells)
-                    end) rows))
+                            (all_cells rcells)
+                    end) rows) all_rows) all_rows
     | ITableRow _ | ITableBody _ | ITableCell _ => []
     end.
 End LinkTargets.
@@ -517,12 +538,10 @@ Section Threading.
     eapply sub_scope_T; [|exact Hp]. apply Hbody. rewrite push_geo, E2. reflexivity.
   Qed.
 
-  Lemma flat_map_on_ok {A B} (r : res A) (h : B -> A -> list text) (l : list B) :
-    flat_map (fun b => on_ok r (h b)) l = on_ok r (fun x => flat_map (fun b => h b x) l).
-  Proof.
-    destruct r; cbn [on_ok]; try reflexivity; induction l as [|b l IH]; cbn [flat_map];
-      try reflexivity; exact IH.
-  Qed.
+  Lemma flat_map_on_ok {A B} (r : res A) (h : B -> A -> list text) (l : list B) (w0 : A) :
+    flat_map (fun b => on_ok r (h b) (h b w0)) l =
+    on_ok r (fun x => flat_map (fun b => h b x) l) (flat_map (fun b => h b w0) l).
+  Proof. destruct r; reflexivity. Qed.
 
   Lemma sup_digits_lt cs t w : sup_digits cs = Some t -> kids_lt cs w = [].
   Proof.
@@ -530,23 +549,25 @@ Section Threading.
     destruct n as [i sty]. destruct i; cbn [rn_info]; try discriminate. intros _. reflexivity.
   Qed.
 
+  (* the links of one row, given the column widths *)
+  Definition row_lt (vr : bool) (col_widths : list N) (w : N) (r : rrow) : list text :=
+    match r with
+    | RRow rcells _ =>
+      on_ok (cell_widths vr col_widths rcells 0) (cells_lt lt rcells)
+            (flat_map (fun c => kids_lt (cell_content c) w) rcells)
+    end.
+
   (* the table case of link_targets in terms of cells_lt *)
-  Lemma lt_table rows ncols sty w :
+  Lemma lt_table rows ncols sty w col_sizes col_widths :
+    tbl_col_sizes d mw rows ncols = Ok col_sizes ->
+    tbl_col_widths o w col_sizes = Ok col_widths ->
     lt (RN (ITable rows ncols) sty) w =
-    on_ok (tbl_col_sizes d mw rows ncols) (fun col_sizes =>
-    on_ok (tbl_col_widths o w col_sizes) (fun col_widths =>
-      flat_map (fun r => match r with
-                         | RRow rcells _ =>
-                           on_ok (cell_widths (tbl_vert o w col_sizes) col_widths rcells 0)
-                                 (cells_lt lt rcells)
-                         end) rows)).
+    flat_map (row_lt (tbl_vert o w col_sizes) col_widths w) rows.
   Proof.
-    cbn [link_targets rn_info].
-    destruct (tbl_col_sizes d mw rows ncols) as [col_sizes| | |]; cbn [on_ok]; try reflexivity.
-    destruct (tbl_col_widths o w col_sizes) as [col_widths| | |]; cbn [on_ok]; try reflexivity.
-    apply flat_map_ext. intros [rcells rsty].
+    intros E1 E2. cbn [link_targets rn_info]. rewrite E1. cbn [on_ok]. rewrite E2. cbn [on_ok].
+    apply flat_map_ext. intros [rcells rsty]. unfold row_lt.
     destruct (cell_widths (tbl_vert o w col_sizes) col_widths rcells 0) as [cws| | |];
-      cbn [on_ok]; try reflexivity.
+      cbn [on_ok]; try (apply flat_map_ext; intros [n content csty]; reflexivity).
     revert cws. induction rcells as [|[n content csty] rcells IH]; intros [|[cw_|] wsl];
       cbn [cells_lt]; try reflexivity.
     - rewrite IH. reflexivity.
@@ -560,7 +581,7 @@ Section Threading.
     T s (fst r)
       (flat_map (fun item =>
                    on_ok (do im <- usub 23 (e_min sz) (e_prefix sz);
-                          width_minus (sub_new w o) pw im) (lt item)) items).
+                          width_minus (sub_new w o) pw im) (lt item) (lt item w)) items).
   Proof.
     induction items as [|item items IH]; intros s i r HF Hg H.
     - cbn [fold_left] in H. ok_inv H. apply T_refl.
@@ -613,9 +634,7 @@ Section Threading.
   Lemma row_body_T vr col_widths w r s s' :
     Forall (fun c => Forall node_lt (cell_content c)) (row_cells r) -> geo s = Some (w, o) ->
     row_body d mw vr col_widths r s = Ok s' ->
-    T s s' (match r with
-            | RRow rcells _ => on_ok (cell_widths vr col_widths rcells 0) (cells_lt lt rcells)
-            end).
+    T s s' (row_lt vr col_widths w r).
   Proof.
     intros HF Hg H. destruct r as [rcells rstyle]. cbn [row_cells] in *. unfold row_body in H.
     bind_inv H apr Hap. destruct apr as [s1 prow]. bind_inv H cws Hcws. bind_inv H rr Hrr.
@@ -630,7 +649,7 @@ Section Threading.
         + eapply with_top_T; [apply append_columns_sames|exact H9].
         + ok_inv H9. apply T_refl. }
     pose proof (unwind_T _ _ _ H) as R10.
-    rewrite Hcws. cbn [on_ok].
+    unfold row_lt. rewrite Hcws. cbn [on_ok].
     eapply T0_l; [exact R1|]. eapply T0_r; [|exact R10]. eapply T0_r; eassumption.
   Qed.
 
@@ -736,7 +755,7 @@ Section Threading.
       pose proof (unwind_T _ _ _ H) as R3.
       cbn [link_targets rn_info]. rewrite Hsz. cbn [on_ok].
       eapply T0_l; [exact R1|]. eapply T0_r; [|exact R3].
-      rewrite <- (flat_map_on_ok _ (fun c w' => lt c w') cs).
+      rewrite <- (flat_map_on_ok _ (fun c w' => lt c w') cs w).
       revert H2.
       apply (fold_T
                (fun item s =>
@@ -763,7 +782,7 @@ Section Threading.
       pose proof (unwind_T _ _ _ H) as R3.
       cbn [link_targets rn_info]. rewrite Hsz. cbn [on_ok].
       eapply T0_l; [exact R1|]. eapply T0_r; [|exact R3].
-      rewrite <- (flat_map_on_ok _ (fun c w' => lt c w') cs).
+      rewrite <- (flat_map_on_ok _ (fun c w' => lt c w') cs w).
       eapply (ol_items_T sz _ w cs st1 start r IH Hg1). exact Hr.
     - (* IDl *)
       start H Hg w sz ap st1 ps R1 Hg1. bind_inv H st2 H2. bind_inv H st3 H3.
@@ -818,7 +837,7 @@ Section Threading.
       assert (Hrows' : fold_left (fun acc r => do s <- acc; row_body d mw vr col_widths r s) rows
                                  (Ok st3) = Ok st_rows) by exact Hrows.
       pose proof (unwind_T _ _ _ H) as R5.
-      rewrite lt_table, Hcs'. cbn [on_ok]. rewrite Hcw'. cbn [on_ok]. rewrite Evr.
+      rewrite (lt_table _ _ _ _ _ _ Hcs' Hcw'), Evr.
       eapply T0_l; [exact R1|]. eapply T0_l; [exact R2|]. eapply T0_l; [exact R3|].
       eapply T0_r; [|exact R5].
       revert Hrows'. apply (fold_T (row_body d mw vr col_widths) _ w rows); [|exact Hg3].
@@ -849,3 +868,733 @@ Section Threading.
           [apply (start_deco_sames d)|apply (end_deco_sames d)].
   Qed.
 End Threading.
+
+(* ================================================================== *)
+(* 4. THEOREM (1): the link list after rendering a node                 *)
+(* ================================================================== *)
+
+(* Whenever render_node answers Ok, the links it pushed are exactly link_targets of the node,
+   computed for the options and the width of the sub-renderer that was on top of the stack,
+   appended in that order to the links that were there before.  Holds for every node kind,
+   through all sub-renderers (headings, quotes, lists, dd, table cells, nested tables), for
+   every decorator and all options (in particular: whether or not footnotes are on). *)
+Theorem links_threaded : forall d mw n st st' tp,
+  top st = Ok tp -> render_node d mw n st = Ok st' ->
+  links st' = links st ++ link_targets d mw (sopts tp) n (swidth_ tp).
+Proof.
+  intros d mw n st st' tp Ht H.
+  exact (proj2 (node_lt_all d mw (sopts tp) n st st' (swidth_ tp) (top_geo _ _ Ht) H)).
+Qed.
+Print Assumptions links_threaded.
+
+(* ... and the stack of sub-renderers has the same widths and options as before. *)
+Theorem render_node_shape : forall d mw n st st' tp,
+  top st = Ok tp -> render_node d mw n st = Ok st' -> shape st' = shape st.
+Proof.
+  intros d mw n st st' tp Ht H.
+  exact (proj1 (node_lt_all d mw (sopts tp) n st st' (swidth_ tp) (top_geo _ _ Ht) H)).
+Qed.
+
+(* ---- link_targets versus the plain pre-order list of all links ---- *)
+Fixpoint all_links (n : rnode) {struct n} : list text :=
+  let kids (cs : list rnode) : list text := flat_map all_links cs in
+  match rn_info n with
+  | IText _ | IImg _ _ | IBreak | IFragStart _ => []
+  | ILink href cs => href :: kids cs
+  | IContainer cs | IEm cs | IStrong cs | IStrikeout cs | ICode cs | IBlock cs | IListItem cs
+  | IDiv cs | IDl cs | IDt cs | ISup cs | IHeader _ cs | IBlockQuote cs | IUl cs | IOl _ cs
+  | IDd cs => kids cs
+  | ITable rows _ =>
+    flat_map (fun r => match r with
+                       | RRow cells _ =>
+                         flat_map (fun c => match c with RCell _ k _ => kids k end) cells
+                       end) rows
+  | ITableRow _ | ITableBody _ | ITableCell _ => []   (* never rendered: Panic 60 *)
+  end.
+
+Fixpoint no_table (n : rnode) {struct n} : bool :=
+  match rn_info n with
+  | IText _ | IImg _ _ | IBreak | IFragStart _ => true
+  | ILink _ cs
+  | IContainer cs | IEm cs | IStrong cs | IStrikeout cs | ICode cs | IBlock cs | IListItem cs
+  | IDiv cs | IDl cs | IDt cs | ISup cs | IHeader _ cs | IBlockQuote cs | IUl cs | IOl _ cs
+  | IDd cs => forallb no_table cs
+  | ITable _ _ | ITableRow _ | ITableBody _ | ITableCell _ => false
+  end.
+
+Inductive subseq {A} : list A -> list A -> Prop :=
+| ss_nil : subseq [] []
+| ss_both x l l' : subseq l l' -> subseq (x :: l) (x :: l')
+| ss_skip x l l' : subseq l l' -> subseq l (x :: l').
+
+Lemma subseq_refl {A} (l : list A) : subseq l l.
+Proof. induction l; constructor; assumption. Qed.
+Lemma subseq_nil_l {A} (l : list A) : subseq [] l.
+Proof. induction l; constructor; assumption. Qed.
+Lemma subseq_skip_app {A} (x l l' : list A) : subseq l l' -> subseq l (x ++ l').
+Proof. intros H. induction x; cbn [app]; [exact H|constructor; assumption]. Qed.
+Lemma subseq_app {A} (a a' b b' : list A) : subseq a a' -> subseq b b' -> subseq (a ++ b) (a' ++ b').
+Proof. intros Ha Hb. induction Ha; cbn [app]; [exact Hb|constructor; assumption|constructor; assumption]. Qed.
+Lemma subseq_flat_map {A B} (f g : A -> list B) (l : list A) :
+  Forall (fun a => subseq (f a) (g a)) l -> subseq (flat_map f l) (flat_map g l).
+Proof.
+  induction 1 as [|a l Ha _ IH]; cbn [flat_map]; [constructor|apply subseq_app; assumption].
+Qed.
+
+Section Pure.
+  Variable d : deco.
+  Variable mw : N.
+  Variable o : ropts.
+  Notation lt := (link_targets d mw o).
+
+  Lemma kids_no_table cs :
+    Forall (fun n => no_table n = true -> forall w, lt n w = all_links n) cs ->
+    forallb no_table cs = true -> forall w, kids_lt d mw o cs w = flat_map all_links cs.
+  Proof.
+    intros HF Hn w. unfold kids_lt. induction HF as [|c cs Hc _ IH]; [reflexivity|].
+    cbn [forallb] in Hn. apply andb_true_iff in Hn. destruct Hn as [H1 H2].
+    cbn [flat_map]. rewrite (Hc H1 w), (IH H2). reflexivity.
+  Qed.
+
+  (* In a tree without tables every link is visited, whatever the widths are. *)
+  Theorem link_targets_no_table : forall n, no_table n = true -> forall w, lt n w = all_links n.
+  Proof.
+    apply (rnode_ind' (fun n => no_table n = true -> forall w, lt n w = all_links n)).
+    intros i sty IH Hn w.
+    destruct i; cbn [direct_kids] in IH; cbn [no_table rn_info] in Hn; try discriminate;
+      cbn [link_targets all_links rn_info]; try reflexivity;
+      repeat match goal with
+             | |- context [on_ok ?r _ _] => destruct r; cbn [on_ok]
+             end;
+      first [ exact (kids_no_table _ IH Hn _)
+            | apply (f_equal (cons _)); exact (kids_no_table _ IH Hn _) ].
+  Qed.
+
+
+  Lemma kids_subseq cs :
+    Forall (fun n => forall w, subseq (lt n w) (all_links n)) cs ->
+    forall w, subseq (kids_lt d mw o cs w) (flat_map all_links cs).
+  Proof.
+    intros HF w. apply subseq_flat_map. eapply Forall_impl; [|exact HF]. intros n H. apply H.
+  Qed.
+
+  Lemma cells_lt_subseq : forall cells wsl,
+    Forall (fun c => Forall (fun n => forall w, subseq (lt n w) (all_links n)) (cell_content c))
+           cells ->
+    subseq (cells_lt lt cells wsl)
+           (flat_map (fun c => match c with RCell _ k _ => flat_map all_links k end) cells).
+  Proof.
+    induction cells as [|[n content csty] cells IH]; intros wsl HF.
+    - destruct wsl; constructor.
+    - inversion HF as [|? ? HF1 HF2]; subst. cbn [cell_content] in HF1.
+      destruct wsl as [|[cw_|] wsl]; cbn [cells_lt flat_map].
+      + apply subseq_nil_l.
+      + apply subseq_app; [apply (kids_subseq _ HF1)|apply IH, HF2].
+      + apply subseq_skip_app, IH, HF2.
+  Qed.
+
+  (* In general link_targets is a subsequence of all links in document order: the only
+     thing the renderer can do is to leave out the links of skipped table cells. *)
+  Theorem link_targets_subseq : forall n w, subseq (lt n w) (all_links n).
+  Proof.
+    apply (rnode_ind' (fun n => forall w, subseq (lt n w) (all_links n))).
+    intros i sty IH w.
+    destruct i; cbn [direct_kids] in IH;
+      try (cbn [link_targets all_links rn_info];
+           repeat match goal with
+                  | |- context [on_ok ?r _ _] => destruct r; cbn [on_ok]
+                  end;
+           try (apply ss_both); try exact (kids_subseq _ IH _); constructor).
+    (* ITable *)
+    apply Forall_flat_map in IH.
+    assert (Hall : subseq
+              (flat_map (fun r => match r with
+                                  | RRow rcells _ =>
+                                    flat_map (fun c => match c with
+                                                       | RCell _ content _ =>
+                                                         flat_map (fun c0 => lt c0 w) content
+                                                       end) rcells
+                                  end) rows)
+              (all_links (RN (ITable rows ncols) sty))).
+    { cbn [all_links rn_info]. apply subseq_flat_map. eapply Forall_impl; [|exact IH].
+      intros [cells rsty] Hr. unfold row_kids in Hr. apply Forall_flat_map in Hr.
+      cbn [row_cells] in Hr. apply subseq_flat_map. eapply Forall_impl; [|exact Hr].
+      intros [n content csty] Hc. cbn [cell_content] in Hc. apply (kids_subseq _ Hc). }
+    destruct (tbl_col_sizes d mw rows ncols) as [col_sizes| | |] eqn:E1;
+      [destruct (tbl_col_widths o w col_sizes) as [col_widths| | |] eqn:E2|..];
+      try (cbn [link_targets rn_info]; rewrite E1; cbn [on_ok]; try rewrite E2; cbn [on_ok];
+           exact Hall).
+    rewrite (lt_table d mw o rows ncols sty w _ _ E1 E2). cbn [all_links rn_info].
+    apply subseq_flat_map. eapply Forall_impl; [|exact IH].
+    intros [cells rsty] Hr. unfold row_kids in Hr. apply Forall_flat_map in Hr.
+    cbn [row_cells] in Hr. unfold row_lt.
+    destruct (cell_widths (tbl_vert o w col_sizes) col_widths cells 0) as [cws| | |];
+      cbn [on_ok]; try apply (cells_lt_subseq _ _ Hr);
+      (apply subseq_flat_map; eapply Forall_impl; [|exact Hr];
+       intros [n content csty] Hc; apply (kids_subseq _ Hc)).
+  Qed.
+End Pure.
+Print Assumptions link_targets_no_table.
+Print Assumptions link_targets_subseq.
+
+(* Corollary: in a tree without tables the k-th pushed link is the k-th link of the tree in
+   document order, wherever the links occur (paragraphs, lists, quotes, headings, dd, ...). *)
+Corollary links_threaded_no_table : forall d mw n st st' tp,
+  no_table n = true -> top st = Ok tp -> render_node d mw n st = Ok st' ->
+  links st' = links st ++ all_links n.
+Proof.
+  intros d mw n st st' tp Hn Ht H.
+  rewrite (links_threaded d mw n st st' tp Ht H), (link_targets_no_table d mw (sopts tp) n Hn).
+  reflexivity.
+Qed.
+Print Assumptions links_threaded_no_table.
+
+(* a list of children: the i-th child starts with the links of the children before it *)
+Lemma render_kids_nth d mw : forall cs st st' tp i c,
+  top st = Ok tp ->
+  fold_left (fun acc c => do s <- acc; render_node d mw c s) cs (Ok st) = Ok st' ->
+  nth_error cs i = Some c ->
+  exists sti sti',
+    render_node d mw c sti = Ok sti' /\ shape sti = shape st /\
+    links sti = links st ++ kids_lt d mw (sopts tp) (firstn i cs) (swidth_ tp).
+Proof.
+  induction cs as [|c0 cs IH]; intros st st' tp i c Ht H Hn; [destruct i; discriminate|].
+  apply fold_bind_cons in H. destruct H as (st1 & H1 & H).
+  destruct i as [|i]; cbn [nth_error firstn] in *.
+  - injection Hn as <-. exists st, st1. split; [exact H1|]. split; [reflexivity|].
+    unfold kids_lt. cbn [flat_map]. rewrite app_nil_r. reflexivity.
+  - pose proof (node_lt_all d mw (sopts tp) c0 st st1 (swidth_ tp) (top_geo _ _ Ht) H1) as [S1 L1].
+    assert (Ht1 : exists tp1, top st1 = Ok tp1 /\ sopts tp1 = sopts tp /\ swidth_ tp1 = swidth_ tp).
+    { destruct (top_inv _ _ Ht) as [rest E]. unfold shape in S1. rewrite E in S1.
+      unfold top. destruct (stack st1) as [|tp1 rest1]; [discriminate|].
+      cbn [map] in S1. injection S1 as A B _. exists tp1. auto. }
+    destruct Ht1 as (tp1 & Ht1 & Eo & Ew).
+    destruct (IH st1 st' tp1 i c Ht1 H Hn) as (sti & sti' & A & B & C).
+    exists sti, sti'. split; [exact A|]. split; [congruence|].
+    rewrite C, L1, Eo, Ew. unfold kids_lt. cbn [flat_map]. rewrite app_assoc. reflexivity.
+Qed.
+Print Assumptions render_kids_nth.
+
+(* ================================================================== *)
+(* 5. THEOREM (2): the reference text of a link                         *)
+(* ================================================================== *)
+
+(* The complete run of the ILink case.  The text passed to add_inline_text after
+   sub_end_link is "[k]" with k = the number of links pushed so far INCLUDING the links
+   nested inside this link:  k = |links before| + 1 + |link_targets of the children|.
+   For a link that contains no (visited) link this is its own 1-based position in the link
+   list (link_reference_simple); a link that contains other links gets the number of the
+   LAST link inside it (known defect, see nested_link_* below).
+   With footnotes off nothing at all is added after the decorator's own link-end string. *)
+Theorem link_reference : forall d mw href cs sty st st' tp,
+  top st = Ok tp -> render_node d mw (RN (ILink href cs) sty) st = Ok st' ->
+  let inner := kids_lt d mw (sopts tp) cs (swidth_ tp) in
+  let k := (length (links st) + 1 + length inner)%nat in
+  exists st1 ps st2 st3 st4 st5,
+    apply_style d st sty = Ok (st1, ps) /\
+    with_top (mkrst (stack st1) (links st ++ [href])) (fun s => sub_start_link d s href) = Ok st2 /\
+    fold_left (fun acc c => do s <- acc; render_node d mw c s) cs (Ok st2) = Ok st3 /\
+    with_top st3 (fun s => sub_end_link d s) = Ok st4 /\
+    links st4 = links st ++ href :: inner /\ shape st4 = shape st /\
+    (if o_footnotes (sopts tp)
+     then inline_text d st4 (ftext ([91] ++ dec_N (N.of_nat k) ++ [93]))
+     else Ok st4) = Ok st5 /\
+    unwind d ps st5 = Ok st'.
+Proof.
+  intros d mw href cs sty st st' tp Ht H inner k.
+  pose proof (top_geo _ _ Ht) as Hg.
+  cbn [render_node rn_info rn_style] in H.
+  bind_inv H sz Hsz. bind_inv H ap Hap. destruct ap as [st1 ps].
+  pose proof (apply_style_T _ _ _ _ _ Hap) as R1.
+  assert (Hg1 : geo st1 = Some (swidth_ tp, sopts tp)) by (rewrite (T_geo _ _ _ R1); exact Hg).
+  assert (El1 : links st1 = links st) by (rewrite (proj2 R1), app_nil_r; reflexivity).
+  rewrite El1 in H.
+  set (st1' := mkrst (stack st1) (links st ++ [href])) in H.
+  bind_inv H st2 H2. bind_inv H st3 H3. bind_inv H st4 H4. bind_inv H tp4 H5. bind_inv H st5 H6.
+  pose proof (with_top_T _ _ _ (start_deco_sames d (d_link_start d href)) H2) as R2.
+  assert (Hg2 : geo st2 = Some (swidth_ tp, sopts tp)) by (rewrite (T_geo _ _ _ R2); exact Hg1).
+  pose proof (render_kids_T d mw (sopts tp) _ _ _ _
+                (proj2 (Forall_forall _ _) (fun c _ => node_lt_all d mw (sopts tp) c)) Hg2 H3) as R3.
+  pose proof (with_top_T _ _ _ (end_deco_sames d (d_link_end d)) H4) as R4.
+  pose proof (T0_l _ _ _ _ R2 (T0_r _ _ _ _ R3 R4)) as R24.
+  assert (El4 : links st4 = links st ++ href :: inner).
+  { rewrite (proj2 R24). cbn [links st1']. rewrite <- app_assoc. reflexivity. }
+  assert (Es4 : shape st4 = shape st).
+  { rewrite (proj1 R24). exact (proj1 R1). }
+  assert (Eo : sopts tp4 = sopts tp).
+  { pose proof (top_geo _ _ H5) as G4. unfold geo in G4, Hg. rewrite Es4, Hg in G4. congruence. }
+  exists st1, ps, st2, st3, st4, st5. repeat (split; [assumption|]). split; [|exact H].
+  rewrite <- Eo. rewrite El4 in H6. rewrite app_length in H6. cbn [length] in H6.
+  replace k with (length (links st) + S (length inner))%nat by lia. exact H6.
+Qed.
+Print Assumptions link_reference.
+
+Lemma subseq_nil_r {A} (l : list A) : subseq l [] -> l = [].
+Proof. inversion 1. reflexivity. Qed.
+
+(* a link without links inside gets its own position in the list: |links before| + 1 *)
+Corollary link_reference_simple : forall d mw href cs sty st st' tp,
+  flat_map all_links cs = [] ->
+  top st = Ok tp -> o_footnotes (sopts tp) = true ->
+  render_node d mw (RN (ILink href cs) sty) st = Ok st' ->
+  exists st4 st5 ps,
+    links st4 = links st ++ [href] /\
+    inline_text d st4 (ftext ([91] ++ dec_N (N.of_nat (length (links st) + 1)) ++ [93])) = Ok st5 /\
+    unwind d ps st5 = Ok st' /\ links st' = links st ++ [href].
+Proof.
+  intros d mw href cs sty st st' tp Hnone Ht Hf H.
+  pose proof (links_threaded _ _ _ _ _ _ Ht H) as HL.
+  destruct (link_reference d mw href cs sty st st' tp Ht H)
+    as (st1 & ps & st2 & st3 & st4 & st5 & _ & _ & _ & _ & A & _ & B & C).
+  assert (E : kids_lt d mw (sopts tp) cs (swidth_ tp) = []).
+  { apply subseq_nil_r. rewrite <- Hnone. apply subseq_flat_map, Forall_forall.
+    intros c _. apply link_targets_subseq. }
+  cbn [link_targets rn_info] in HL. fold (kids_lt d mw (sopts tp) cs (swidth_ tp)) in HL.
+  rewrite E in A, B, HL. rewrite Hf in B. cbn [length] in B. rewrite Nat.add_0_r in B.
+  exists st4, st5, ps. auto.
+Qed.
+Print Assumptions link_reference_simple.
+
+(* ================================================================== *)
+(* 6. THEOREM (3): render_tree and the footnote list                    *)
+(* ================================================================== *)
+
+Lemma finalise_from_nil k L : finalise_from k L = [] <-> L = [].
+Proof. destruct L; cbn [finalise_from]; split; intros; try reflexivity; discriminate. Qed.
+
+(* render_tree = render the tree into one sub-renderer `body`, collecting
+   L = link_targets tree, then - only if footnotes are on and L is not empty - start a new
+   block and format the lines finalise_from 1 L, ONCE, at the end.  With footnotes off (or no
+   visited link) the result is the body itself: no list. *)
+Theorem render_tree_footnotes : forall d mw o width tree s,
+  render_tree d mw o width tree = Ok s ->
+  let L := link_targets d mw o tree width in
+  exists st body,
+    render_node d mw tree (mkrst [sub_new width o] []) = Ok st /\
+    stack st = [body] /\ links st = L /\ swidth_ body = width /\ sopts body = o /\
+    match (if o_footnotes o then L else []) with
+    | [] => s = body
+    | _ :: _ => exists b1, start_block body = Ok b1 /\ s = fmt_links b1 (finalise_from 1 L)
+    end.
+Proof.
+  intros d mw o width tree s H L. unfold render_tree in H.
+  bind_inv H e He. bind_inv H st Hst.
+  pose proof (node_lt_all d mw o tree (mkrst [sub_new width o] []) st width eq_refl Hst) as [Sh Lk].
+  cbn [links app] in Lk.
+  destruct (stack st) as [|body [|x rest]] eqn:Es; try discriminate.
+  unfold shape in Sh. rewrite Es in Sh. cbn [stack map] in Sh. injection Sh as E1 E2.
+  cbn [sub_new swidth_ sopts] in E1, E2.
+  exists st, body. repeat (split; [assumption|]).
+  unfold sub_finalise in H. rewrite E2, Lk in H. fold L in H.
+  destruct (o_footnotes o).
+  - destruct L as [|u L']; [cbn [finalise_from] in H; ok_inv H; reflexivity|].
+    cbn [finalise_from] in H. bind_inv H b1 Hb1. ok_inv H. exists b1. split; [exact Hb1|reflexivity].
+  - ok_inv H. reflexivity.
+Qed.
+Print Assumptions render_tree_footnotes.
+
+(* the k-th entry (k = 1, 2, ...) of that list is "[k]: " followed by the k-th link target *)
+Corollary render_tree_footnote_entry : forall d mw o width tree i u,
+  nth_error (link_targets d mw o tree width) i = Some u ->
+  option_map (fun l => cps (tl_string l))
+             (nth_error (finalise_from 1 (link_targets d mw o tree width)) i) =
+  Some ([91] ++ dec_N (1 + N.of_nat i) ++ [93; 58; 32] ++ cps u) /\
+  length (finalise_from 1 (link_targets d mw o tree width)) =
+  length (link_targets d mw o tree width).
+Proof.
+  intros. split; [apply finalise_from_nth; assumption|apply finalise_from_length].
+Qed.
+Print Assumptions render_tree_footnote_entry.
+
+(* ---- what fmt_links appends: the lines of the list ---- *)
+
+(* text of the fragments waiting for the next line (fragment markers have no text) *)
+Definition pf_text (s : subr) : text := flat_map elem_text (pending_frags s).
+
+Lemma tl_string_fold_push v : forall l,
+  tl_string (fold_left tl_push v l) = tl_string l ++ flat_map elem_text v.
+Proof.
+  induction v as [|e v IH]; intros l; cbn [fold_left flat_map].
+  - rewrite app_nil_r. reflexivity.
+  - rewrite IH, TableProof.tl_string_push, app_assoc. reflexivity.
+Qed.
+
+Lemma add_line_text s tl :
+  exists l', slines (add_line s (RText tl)) = slines s ++ [l'] /\
+             rline_string l' = pf_text s ++ tl_string tl /\
+             pending_frags (add_line s (RText tl)) = [].
+Proof.
+  unfold add_line, pf_text. destruct (pending_frags s) as [|e pf] eqn:E; sprj.
+  - eexists. split; [reflexivity|]. split; [reflexivity|first [exact E|reflexivity]].
+  - eexists. split; [reflexivity|]. split; [|reflexivity].
+    cbn [rline_string]. rewrite !tl_string_fold_push. reflexivity.
+Qed.
+
+(* everything that has been put on lines or is waiting to be *)
+Definition fl_pending (s : subr) (wl : tline) (buf : text) : text :=
+  pf_text s ++ tl_string wl ++ buf.
+
+Lemma fl_chars_spec t : forall cs s buf wl pos s' buf' wl' pos',
+  fl_chars s t cs buf wl pos = (s', buf', wl', pos') ->
+  exists new, slines s' = slines s ++ new /\
+              flat_map rline_string new ++ fl_pending s' wl' buf' = fl_pending s wl buf ++ cs /\
+              same s s' /\ wrapping s' = wrapping s.
+Proof.
+  induction cs as [|c cs IH]; intros s buf wl pos s' buf' wl' pos' H; cbn [fl_chars] in H.
+  - injection H as <- <- <- <-. exists []. rewrite !app_nil_r. cbn [flat_map app].
+    split; [reflexivity|]. split; [reflexivity|]. split; [apply same_refl|reflexivity].
+  - destruct (swidth_ s <? pos + cw0 c).
+    + match type of H with
+      | fl_chars (add_line s (RText ?wl1)) _ _ _ _ _ = _ => set (w1 := wl1) in *
+      end.
+      destruct (add_line_text s w1) as (l' & E1 & E2 & E3).
+      destruct (IH _ _ _ _ _ _ _ _ H) as (new & A & B & C & D).
+      exists (l' :: new). rewrite A, E1, <- app_assoc. split; [reflexivity|].
+      destruct (add_line_same s (RText w1)) as (a & b & c').
+      split; [|split; [eapply same_trans; [apply add_line_same'|exact C]|congruence]].
+      cbn [flat_map]. rewrite <- app_assoc, B, E2.
+      assert (Ep : fl_pending (add_line s (RText w1)) tl_new [c] = [c]).
+      { unfold fl_pending, pf_text. rewrite E3. reflexivity. }
+      assert (Ew : tl_string w1 = tl_string wl ++ buf).
+      { unfold w1. destruct buf; [rewrite app_nil_r; reflexivity|].
+        apply TableProof.tl_string_push_str. }
+      rewrite Ep, Ew. unfold fl_pending. rewrite <- !app_assoc. reflexivity.
+    + destruct (IH _ _ _ _ _ _ _ _ H) as (new & A & B & C & D).
+      exists new. split; [exact A|]. split; [|split; assumption].
+      rewrite B. unfold fl_pending. rewrite <- !app_assoc. reflexivity.
+Qed.
+
+Lemma fl_strings_spec : forall strs s wl pos s' wl',
+  fl_strings s strs wl pos = (s', wl') ->
+  exists new, slines s' = slines s ++ new /\
+              flat_map rline_string new ++ fl_pending s' wl' [] =
+              fl_pending s wl [] ++ flat_map (fun p => nl_to_space (fst p)) strs /\
+              same s s' /\ wrapping s' = wrapping s /\
+              (o_wrap_links (sopts s) = false -> new = [] /\ s' = s).
+Proof.
+  induction strs as [|[str tg] strs IH]; intros s wl pos s' wl' H; cbn [fl_strings] in H.
+  - injection H as <- <-. exists []. cbn [flat_map app]. rewrite !app_nil_r.
+    repeat split; try reflexivity.
+  - cbn [flat_map fst].
+    destruct (o_wrap_links (sopts s) && (swidth_ s <? pos + swidth (nl_to_space str))) eqn:Ec.
+    + destruct (fl_chars s [ADefault] (nl_to_space str) [] wl pos) as [[[s1 buf] wl1] pos1] eqn:Ef.
+      destruct (fl_chars_spec _ _ _ _ _ _ _ _ _ _ Ef) as (new1 & A1 & B1 & C1 & D1).
+      destruct (IH _ _ _ _ _ H) as (new2 & A2 & B2 & C2 & D2 & _).
+      exists (new1 ++ new2). rewrite A2, A1, <- app_assoc. split; [reflexivity|].
+      split; [|split; [eapply same_trans; eassumption|split; [congruence|]]].
+      * rewrite flat_map_app, <- app_assoc, B2.
+        assert (Ep : fl_pending s1 (tl_push_str wl1 buf [ADefault]) [] = fl_pending s1 wl1 buf).
+        { unfold fl_pending. rewrite TableProof.tl_string_push_str, app_nil_r. reflexivity. }
+        rewrite Ep, app_assoc, B1, <- app_assoc. reflexivity.
+      * intros Hw. rewrite Hw in Ec. discriminate.
+    + destruct (IH _ _ _ _ _ H) as (new2 & A2 & B2 & C2 & D2 & F2).
+      exists new2. split; [exact A2|]. split; [|split; [exact C2|split; [exact D2|exact F2]]].
+      rewrite B2. unfold fl_pending. rewrite TableProof.tl_string_push_str, !app_nil_r,
+        <- !app_assoc. reflexivity.
+Qed.
+
+Lemma nl_to_space_app a b : nl_to_space (a ++ b) = nl_to_space a ++ nl_to_space b.
+Proof. apply map_app. Qed.
+
+Lemma tagged_strings_text l :
+  flat_map (fun p => nl_to_space (fst p)) (tl_tagged_strings l) = nl_to_space (tl_string l).
+Proof.
+  unfold tl_tagged_strings, tl_string. induction (tv l) as [|e v IH]; [reflexivity|].
+  cbn [flat_map]. rewrite flat_map_app, nl_to_space_app, IH.
+  destruct e; cbn [flat_map elem_text fst app]; rewrite ?app_nil_r; reflexivity.
+Qed.
+
+(* the lines `new` consist of one non-empty group of consecutive lines per entry; the strings
+   of the lines of a group concatenate to the entry (the first one preceded by the text p of
+   the pending fragments) *)
+Inductive entry_groups : list text -> text -> list rline -> Prop :=
+| eg_nil p : entry_groups [] p []
+| eg_cons e es p g rest :
+    g <> [] -> flat_map rline_string g = p ++ e -> entry_groups es [] rest ->
+    entry_groups (e :: es) p (g ++ rest).
+
+Definition entry_text (l : tline) : text := nl_to_space (tl_string l).
+
+Theorem fmt_links_spec : forall ls s,
+  exists new,
+    slines (fmt_links s ls) = slines s ++ new /\
+    entry_groups (map entry_text ls) (pf_text s) new /\
+    wrapping (fmt_links s ls) = wrapping s /\
+    (o_wrap_links (sopts s) = false ->
+     map rline_string new = match map entry_text ls with
+                            | [] => []
+                            | e :: es => (pf_text s ++ e) :: es
+                            end).
+Proof.
+  induction ls as [|l ls IH]; intros s; cbn [fmt_links map].
+  - exists []. rewrite app_nil_r. repeat split; try reflexivity. constructor.
+  - destruct (fl_strings s (tl_tagged_strings l) tl_new 0) as [s1 wl] eqn:Ef.
+    destruct (fl_strings_spec _ _ _ _ _ _ Ef) as (new1 & A1 & B1 & C1 & D1 & F1).
+    destruct (add_line_text s1 wl) as (l' & E1 & E2 & E3).
+    destruct (IH (add_line s1 (RText wl))) as (new2 & A2 & B2 & C2 & D2).
+    destruct (add_line_same s1 (RText wl)) as (a & b & c).
+    exists ((new1 ++ [l']) ++ new2).
+    split; [rewrite A2, E1, A1, <- !app_assoc; reflexivity|]. split; [|split; [congruence|]].
+    + constructor.
+      * intros Hx. apply app_eq_nil in Hx. destruct Hx as [_ Hx]. discriminate Hx.
+      * rewrite flat_map_app. cbn [flat_map]. rewrite app_nil_r, E2.
+        unfold fl_pending in B1. rewrite !app_nil_r in B1.
+        rewrite tagged_strings_text in B1. exact B1.
+      * unfold pf_text in B2 at 1. rewrite E3 in B2. exact B2.
+    + intros Hw. destruct (F1 Hw) as [-> ->]. cbn [app map]. rewrite E2.
+      unfold fl_pending in B1. rewrite !app_nil_r in B1. cbn [flat_map app] in B1.
+      rewrite tagged_strings_text in B1. rewrite B1. unfold entry_text at 1.
+      f_equal. rewrite D2 by (rewrite b; exact Hw).
+      unfold pf_text. rewrite E3. destruct (map entry_text ls); reflexivity.
+Qed.
+Print Assumptions fmt_links_spec.
+
+(* ---- the output of render_tree ends with exactly that list ---- *)
+
+Lemma extend_lines_wrapping ls : forall s, wrapping (extend_lines s ls) = wrapping s.
+Proof.
+  unfold extend_lines. induction ls as [|l ls IH]; intros s; cbn [fold_left]; [reflexivity|].
+  rewrite IH. destruct (add_line_same s l) as (_ & _ & c). exact c.
+Qed.
+
+Lemma flush_wrapping_none s s' : flush_wrapping s = Ok s' -> wrapping s' = None.
+Proof.
+  intros H. unfold flush_wrapping in H. destruct (wrapping s) as [w|] eqn:Ew.
+  - destruct (take_trailing_fragments w) as [w1 frags]. bind_inv H ls Hls. ok_inv H. sprj.
+    rewrite extend_lines_wrapping. reflexivity.
+  - ok_inv H. exact Ew.
+Qed.
+
+Lemma start_block_none s s' : start_block s = Ok s' -> wrapping s' = None.
+Proof.
+  intros H. unfold start_block in H. bind_inv H s1 H1. bind_inv H s2 H2. ok_inv H. sprj.
+  pose proof (flush_wrapping_none _ _ H1) as E1.
+  destruct (existsb rline_has_content (slines s1)).
+  - unfold add_empty_line in H2. bind_inv H2 s3 H3. ok_inv H2. sprj.
+    destruct (add_line_same s3 (RText tl_new)) as (_ & _ & c). rewrite c.
+    apply (flush_wrapping_none _ _ H3).
+  - ok_inv H2. exact E1.
+Qed.
+
+Lemma cps_nl_to_space t :
+  cps (nl_to_space t) = map (fun c => if c =? 10 then 32 else c) (cps t).
+Proof.
+  unfold cps, nl_to_space. rewrite !map_map. apply map_ext. intros c.
+  destruct (cp c =? 10); reflexivity.
+Qed.
+
+(* With footnotes on and at least one visited link: the lines of the result are the lines of
+   the document body (after start_block, which separates the list from the text by an empty
+   line) followed by the lines `new` of the footnote list and nothing else; `new` consists
+   of one group of lines per link, the k-th group spelling "[k]: " ++ target_k (newlines in
+   the target shown as spaces); without link wrapping each group is a single line. *)
+Theorem render_tree_output : forall d mw o width tree s,
+  render_tree d mw o width tree = Ok s ->
+  o_footnotes o = true ->
+  let L := link_targets d mw o tree width in
+  L <> [] ->
+  exists st body b1 new,
+    render_node d mw tree (mkrst [sub_new width o] []) = Ok st /\ stack st = [body] /\
+    start_block body = Ok b1 /\
+    sub_into_lines s = Ok (slines b1 ++ new) /\
+    entry_groups (map entry_text (finalise_from 1 L)) (pf_text b1) new /\
+    (o_wrap_links o = false ->
+     map rline_string new = match map entry_text (finalise_from 1 L) with
+                            | [] => []
+                            | e :: es => (pf_text b1 ++ e) :: es
+                            end) /\
+    forall i u, nth_error L i = Some u ->
+      option_map (fun l => cps (entry_text l)) (nth_error (finalise_from 1 L) i) =
+      Some (map (fun c => if c =? 10 then 32 else c)
+                ([91] ++ dec_N (1 + N.of_nat i) ++ [93; 58; 32] ++ cps u)).
+Proof.
+  intros d mw o width tree s H Hf L HL.
+  destruct (render_tree_footnotes d mw o width tree s H) as (st & body & A & B & C & D & E & F).
+  fold L in F. rewrite Hf in F. destruct L as [|u0 L'] eqn:EL; [contradiction|].
+  destruct F as (b1 & Hb1 & ->).
+  destruct (fmt_links_spec (finalise_from 1 (u0 :: L')) b1) as (new & G1 & G2 & G3 & G4).
+  exists st, body, b1, new. repeat (split; [assumption|]).
+  split; [|split; [exact G2|split]].
+  - unfold sub_into_lines, flush_wrapping. rewrite G3, (start_block_none _ _ Hb1).
+    cbn [bind]. rewrite G1. reflexivity.
+  - intros Hw. apply G4. destruct (start_block_sames _ _ Hb1) as [_ Eo]. rewrite Eo, E. exact Hw.
+  - intros i u Hn. pose proof (finalise_from_nth (u0 :: L') 1 i u Hn) as X.
+    destruct (nth_error (finalise_from 1 (u0 :: L')) i) as [l|]; [|discriminate].
+    cbn [option_map] in *. injection X as X. unfold entry_text. rewrite cps_nl_to_space, X.
+    reflexivity.
+Qed.
+Print Assumptions render_tree_output.
+
+(* ================================================================== *)
+(* 7. Non-vacuity examples and findings                                 *)
+(* ================================================================== *)
+
+Definition fn_opts : ropts := render_options (set_footnotes (with_decorator plain_deco) true).
+Definition fn_out (r : res subr) : res (list (list N)) :=
+  do s <- r; do ls <- sub_into_lines s; Ok (map (fun l => cps (rline_string l)) ls).
+Definition fn_u (k : N) : text := ex_str [117; 48 + k].             (* "u<k>" *)
+Definition fn_tx (l : list N) : rnode := ex_n (IText (ex_str l)).
+Definition fn_lk (k : N) (l : list N) : rnode := ex_n (ILink (fn_u k) [fn_tx l]).
+
+(* links in a paragraph, a heading, a quote, an unordered and an ordered list, a table cell,
+   a nested table, a dt and a dd *)
+Definition fn_tree : rnode :=
+  ex_n (IContainer
+    [ex_n (IBlock [fn_tx [97;32]; fn_lk 1 [112]]);
+     ex_n (IHeader 1 [fn_lk 2 [104]]);
+     ex_n (IBlockQuote [ex_n (IBlock [fn_lk 3 [113]])]);
+     ex_n (IUl [ex_n (IListItem [fn_lk 4 [105]])]);
+     ex_n (IOl 1 [ex_n (IListItem [fn_lk 5 [111]])]);
+     ex_n (ITable [RRow [RCell 1 [fn_lk 6 [99]] cstyle0;
+                         RCell 1 [ex_n (ITable [RRow [RCell 1 [fn_lk 7 [110]] cstyle0] cstyle0] 1)]
+                               cstyle0] cstyle0] 2);
+     ex_n (IDl [ex_n (IDt [fn_lk 8 [116]]); ex_n (IDd [fn_lk 9 [100]])])]).
+
+(* (1): the hypotheses of links_threaded hold (rendering is Ok from a state that already has
+   one link) and the links come out as u0, u1 .. u9 *)
+Example fn_links_threaded :
+  (do st <- render_node plain_deco 3 fn_tree (mkrst [sub_new 40 fn_opts] [fn_u 0]);
+   Ok (map cps (links st))) = Ok (map (fun k => cps (fn_u k)) [0;1;2;3;4;5;6;7;8;9]) /\
+  map cps (link_targets plain_deco 3 fn_opts fn_tree 40) =
+  map (fun k => cps (fn_u k)) [1;2;3;4;5;6;7;8;9] /\
+  link_targets plain_deco 3 fn_opts fn_tree 40 = all_links fn_tree.
+Proof. repeat split; vm_compute; reflexivity. Qed.
+
+(* (3): render_tree is Ok, the references are [1] .. [9] in document order and the output ends
+   with the list "[1]: u1" .. "[9]: u9" *)
+Example fn_render_tree :
+  fn_out (render_tree plain_deco 3 fn_opts 40 fn_tree) =
+  Ok [[97; 32; 91; 112; 93; 91; 49; 93]; [];                         (* a [p][1]   *)
+      [35; 32; 91; 104; 93; 91; 50; 93]; [];                         (* # [h][2]   *)
+      [62; 32; 91; 113; 93; 91; 51; 93];                             (* > [q][3]   *)
+      [42; 32; 91; 105; 93; 91; 52; 93];                             (* * [i][4]   *)
+      [49; 46; 32; 91; 111; 93; 91; 53; 93]; [];                     (* 1. [o][5]  *)
+      [9472; 9472; 9472; 9472; 9472; 9472; 9516; 9472; 9472; 9472; 9472; 9472; 9472];
+      [91; 99; 93; 91; 54; 93; 9474; 91; 110; 93; 91; 55; 93];       (* [c][6]|[n][7] *)
+      [9472; 9472; 9472; 9472; 9472; 9472; 9524; 9472; 9472; 9472; 9472; 9472; 9472]; [];
+      [91; 116; 93; 91; 56; 93];                                     (* [t][8]     *)
+      [32; 32; 91; 100; 93; 91; 57; 93]; [];                         (*   [d][9]   *)
+      [91; 49; 93; 58; 32; 117; 49]; [91; 50; 93; 58; 32; 117; 50];
+      [91; 51; 93; 58; 32; 117; 51]; [91; 52; 93; 58; 32; 117; 52];
+      [91; 53; 93; 58; 32; 117; 53]; [91; 54; 93; 58; 32; 117; 54];
+      [91; 55; 93; 58; 32; 117; 55]; [91; 56; 93; 58; 32; 117; 56];
+      [91; 57; 93; 58; 32; 117; 57]].
+Proof. vm_compute. reflexivity. Qed.
+
+(* the theorems apply to the example *)
+Definition fn_s : subr :=
+  match render_tree plain_deco 3 fn_opts 40 fn_tree with Ok s => s | _ => sub_new 0 fn_opts end.
+Example fn_render_eq : render_tree plain_deco 3 fn_opts 40 fn_tree = Ok fn_s.
+Proof. vm_compute. reflexivity. Qed.
+Example fn_output_applies :
+  exists b1 new, sub_into_lines fn_s = Ok (slines b1 ++ new) /\
+                 entry_groups (map entry_text (finalise_from 1 (all_links fn_tree))) (pf_text b1) new.
+Proof.
+  destruct (render_tree_output plain_deco 3 fn_opts 40 fn_tree fn_s fn_render_eq eq_refl)
+    as (st & body & b1 & new & _ & _ & _ & A & B & _).
+  - vm_compute. discriminate.
+  - exists b1, new. split; [exact A|].
+    replace (all_links fn_tree) with (link_targets plain_deco 3 fn_opts fn_tree 40)
+      by (vm_compute; reflexivity).
+    exact B.
+Qed.
+
+(* footnotes off: no reference and no list (the link list is still collected) *)
+Definition fn_opts_off : ropts := render_options (with_decorator plain_deco).
+Example fn_footnotes_off :
+  fn_out (render_tree plain_deco 3 fn_opts_off 40
+            (ex_n (IBlock [fn_tx [97;32]; fn_lk 1 [112]; fn_tx [32]; fn_lk 2 [113]]))) =
+  Ok [[97; 32; 91; 112; 93; 32; 91; 113; 93]].                       (* a [p] [q] *)
+Proof. vm_compute. reflexivity. Qed.
+
+(* ---- FINDING 1 (known, DESIGN): a link that contains another link gets the number of the
+   last link inside it.  link_reference says k = |links before| + 1 + |links inside|. ---- *)
+(* <a href=u1>x <a href=u2>y</a> z</a>  (render tree; an HTML parser does not nest <a> directly) *)
+Definition nested_link_tree : rnode :=
+  ex_n (ILink (fn_u 1) [fn_tx [120;32]; fn_lk 2 [121]; fn_tx [32;122]]).
+Example nested_link_direct :
+  fn_out (render_tree plain_deco 3 fn_opts 40 nested_link_tree) =
+  Ok [[91; 120; 32; 91; 121; 93; 91; 50; 93; 32; 122; 93; 91; 50; 93]; [];   (* [x [y][2] z][2] *)
+      [91; 49; 93; 58; 32; 117; 49]; [91; 50; 93; 58; 32; 117; 50]].         (* [1]: u1  [2]: u2 *)
+Proof. vm_compute. reflexivity. Qed.
+(* <a href=u1><table><tr><td>x <a href=u2>y</a></td></tr></table>z</a>: reachable from HTML;
+   the implementation prints the same ("z][2]") *)
+Definition nested_link_table : rnode :=
+  ex_n (ILink (fn_u 1)
+          [ex_n (ITable [RRow [RCell 1 [fn_tx [120;32]; fn_lk 2 [121]] cstyle0] cstyle0] 1);
+           fn_tx [122]]).
+Example nested_link_via_table :
+  fn_out (render_tree plain_deco 3 fn_opts 20 nested_link_table) =
+  Ok [[91]; []; [9472; 9472; 9472; 9472; 9472; 9472; 9472];
+      [120; 32; 32; 32; 32; 32; 32]; [91; 121; 93; 91; 50; 93; 32];          (* [y][2] *)
+      [9472; 9472; 9472; 9472; 9472; 9472; 9472]; [122; 93; 91; 50; 93]; []; (* z][2]  *)
+      [91; 49; 93; 58; 32; 117; 49]; [91; 50; 93; 58; 32; 117; 50]] /\
+  map cps (link_targets plain_deco 3 fn_opts nested_link_table 20) = [cps (fn_u 1); cps (fn_u 2)].
+Proof. split; vm_compute; reflexivity. Qed.
+
+(* ---- FINDING 2 (new): a table cell whose estimated size divided by its colspan is 0 is given
+   no width and is dropped with everything in it: text, link, reference and footnote.
+   link_targets really is shorter than all_links here.  Reachable from HTML:
+   <table><tr><td colspan=7><a href=u1>x</a></td></tr><tr><td></td> x7 </tr></table>
+   renders as the empty string, in the model and in the implementation (probed with the
+   harness; <td colspan=7>hello</td> over seven empty cells loses "hello" the same way). ---- *)
+Definition skipped_cell_tree : rnode :=
+  ex_n (ITable [RRow [RCell 7 [fn_lk 1 [120]] cstyle0] cstyle0] 7).
+Example skipped_cell :
+  fn_out (render_tree plain_deco 3 fn_opts 20 skipped_cell_tree) = Ok [] /\
+  link_targets plain_deco 3 fn_opts skipped_cell_tree 20 = [] /\
+  all_links skipped_cell_tree = [fn_u 1].
+Proof. repeat split; vm_compute; reflexivity. Qed.
+
+Definition fn_el (name : list N) attrs kids : node := NElem true (ex_str name) attrs kids.
+Definition fn_td0 : node := fn_el [116;100] [] [].
+Definition skipped_cell_dom : list node :=
+  [fn_el [116;97;98;108;101] [] [fn_el [116;98;111;100;121] []
+     [fn_el [116;114] []
+        [fn_el [116;100] [(ex_str [99;111;108;115;112;97;110], ex_str [55])]
+               [fn_el [97] [(ex_str [104;114;101;102], fn_u 1)] [NText (ex_str [120])]]];
+      fn_el [116;114] [] [fn_td0;fn_td0;fn_td0;fn_td0;fn_td0;fn_td0;fn_td0]]]].
+Example skipped_cell_from_html :
+  string_from_read (fun _ => Ok []) (fun _ => Ok [])
+                   (set_footnotes (with_decorator plain_deco) true) skipped_cell_dom 20 = Ok [].
+Proof. vm_compute. reflexivity. Qed.
+
+(* ================================================================== *)
+(* SUMMARY                                                              *)
+(* ==================================================================
+
+   link_targets d mw o n w : list text
+     the targets of the ILink nodes that render_node visits when it renders n into a
+     sub-renderer of width w with options o, in document (pre-)order.  Every ILink node counts
+     (with or without content, nested or not, footnotes on or off); only the contents of
+     table cells that get no width are not visited.  all_links n = all ILink targets in
+     pre-order;  link_targets_subseq: link_targets is a subsequence of all_links;
+     link_targets_no_table: equal for trees without tables.
+
+   (1) links_threaded:
+         top st = Ok tp -> render_node d mw n st = Ok st' ->
+         links st' = links st ++ link_targets d mw (sopts tp) n (swidth_ tp)
+       (+ render_node_shape: the stack keeps its widths/options;
+          links_threaded_no_table: ... = links st ++ all_links n;
+          render_kids_nth: the i-th child starts after the links of the children before it)
+   (2) link_reference: the complete run of the ILink case; the text passed to
+       add_inline_text after sub_end_link is
+         "[" ++ dec_N (|links st| + 1 + |link_targets of the children|) ++ "]"
+       if footnotes are on, and nothing is added if they are off.
+       link_reference_simple: for a link without links inside: "[" ++ dec_N (|links st| + 1) ++ "]".
+   (3) render_tree_footnotes: render_tree = body; if footnotes on and L = link_targets tree <> []
+       then fmt_links (start_block body) (finalise_from 1 L) - once - else the body itself.
+       render_tree_footnote_entry (k-th entry = "[k]: " ++ target_k), fmt_links_spec and
+       render_tree_output (the lines of the result are the body's lines followed by exactly the
+       lines of the list, one group of lines per link; one line per link without wrapping).
+
+   No hypotheses besides the Ok outcome.  NOT proved: a tree-level "trace" connecting every
+   nested ILink call inside a tree to link_reference formally (link_reference is stated for an
+   arbitrary start state, and (1)/render_kids_nth give the link list at every point, but the
+   call tree itself is not formalised); that the reference text, once passed to
+   add_inline_text, appears in the output right after the link text (that is the
+   character-conservation property of the wrapping layer, Proofs/Conserve.v).
+
+   Deviations from C08 found: FINDING 1 (nested links, known), FINDING 2 (skipped cells, new);
+   with footnotes off the renderer still collects the link list (it is only not printed), so
+   "links stays []" is false, harmlessly. *)
